@@ -284,6 +284,8 @@ def run(ctx):
             # size -= removed.len() under the same guard, after the loop
             decs = [(bb, s) for bb, i, s in r.field_writes(b, r.SLOTS, r.SIZE)]
             okz = len(decs) == 1 and classify_write(an, decs[0][1])[0] == '-=' and 'len' in classify_write(an, decs[0][1])[1]
+            if not okz and len(decs) == 1 and classify_write(an, decs[0][1]) == ('-=', '1_usize') and decs[0][0] in drop_only:
+                okz = True          # one `size -= 1` per removed object, on the branch that removes it
             ctx.ob('R09.1', 'size reduced by the number of removed objects', okz, ctx.where(b, decs[0][1].line) if decs else ctx.where(b),
                    'size writes: %s' % [classify_write(an, s) for _, s in decs], construct='retain:size')
             if okz:
